@@ -93,7 +93,7 @@ def int_range(t):
 
 MAX_IDENT = 1024            # parser.rs: longer identifiers are rejected
 
-STRING_CLASSES = ("plain", "empty", "escapes", "dquote", "utf8", "rawnl")
+STRING_CLASSES = ("plain", "empty", "escapes", "dquote", "utf8", "rawnl", "mixed")
 FLOAT_CLASSES = ("plain", "int", "exp", "neg", "zero", "tiny", "huge", "hexint", "dotform")
 
 DEVIATION_KINDS = ("missing_required", "duplicate_single", "block_as_keyword", "keyword_as_block",
@@ -574,7 +574,10 @@ class _Gen(object):
         if cls == "empty":
             return Val("string", "", '""')
         special = {"plain": (), "escapes": _STR_ESCAPES, "dquote": _STR_DQUOTE,
-                   "utf8": tuple((c, c) for c in _STR_UTF8), "rawnl": _STR_RAW}[cls]
+                   "utf8": tuple((c, c) for c in _STR_UTF8), "rawnl": _STR_RAW,
+                   # escape sequences, doubled quotes and multi-byte characters in ONE string (a reader that handles escapes byte
+                   # by byte, or multi-byte characters only on the path without escapes, shows here); also comment markers
+                   "mixed": _STR_ESCAPES + _STR_DQUOTE + tuple((c, c) for c in _STR_UTF8) + (("//", "//"), ("/*", "/*"), ("*/", "*/"))}[cls]
         meaning, source = [], []
         for _ in range(rng.randint(1, max(1, self.opts.max_string))):
             r = rng.random()
